@@ -46,6 +46,8 @@ fn base(config_mode: bool) -> Case {
         cfg_inits: vec![],
         history: vec![],
         twin: true,
+        scripted_store: false,
+        store_starts_unwritable: false,
     }
 }
 
@@ -218,6 +220,46 @@ pub fn all() -> Vec<Witness> {
             Step::Cycle(10 * MS),
         ];
         out.push(Witness { signature: Some("warm-rollback"), case: c });
+    }
+
+    // 7 (regression): a write that fails must not be remembered as written.  The retain directory
+    // does not exist at first: save fails; the directory appears; the retry — with UNCHANGED retained
+    // values — must write; a new process then loads the saved value.
+    {
+        let mut c = base(true);
+        c.globals.push(var("gr", Ty::S(ST_INT), Pol::R, None, None, "VAR_GLOBAL"));
+        c.progs.push(prog("P0", "Prog0", vec![], vec![0], vec![Stmt::S(SStmt::Inc(g("gr"), 1, ST_INT))]));
+        c.store_starts_unwritable = true;
+        c.history = vec![
+            Step::Store(false),
+            Step::Cycle(10 * MS),
+            Step::Cycle(10 * MS),
+            Step::Save,
+            Step::EnvW(true),
+            Step::Save,
+            Step::Power(None),
+            Step::Cycle(10 * MS),
+        ];
+        out.push(Witness { signature: None, case: c });
+    }
+    // 8 (regression): the same with the scripted store and an autosaving manager: the failing cycle
+    // faults the resource, the warm restart clears the latch, the explicit retry must write.
+    {
+        let mut c = base(true);
+        c.globals.push(var("gr", Ty::S(ST_INT), Pol::R, None, None, "VAR_GLOBAL"));
+        c.progs.push(prog("P0", "Prog0", vec![], vec![0], vec![Stmt::S(SStmt::Inc(g("gr"), 1, ST_INT))]));
+        c.scripted_store = true;
+        c.history = vec![
+            Step::Store(true),
+            Step::Cycle(10 * MS),
+            Step::EnvW(false),
+            Step::Cycle(10 * MS),
+            Step::Save,
+            Step::EnvW(true),
+            Step::Save,
+            Step::Power(None),
+        ];
+        out.push(Witness { signature: None, case: c });
     }
 
     out
